@@ -101,6 +101,20 @@ def _names(obj, acc_list, griffe, prefix=""):
     """Collect (where, name, canonical_path) for every ExprName in the tree."""
     from _griffe import expressions as E
 
+    import dataclasses
+
+    def every_node(e, seen):
+        """every expression object reachable through the dataclass fields (back-references like ExprKeyword.function included, `parent` links excluded)"""
+        if isinstance(e, (list, tuple)):
+            for x in e:
+                yield from every_node(x, seen)
+        elif isinstance(e, E.Expr):
+            # (no de-duplication by identity: a keyword's `function` is the call's own callee object before, an equal copy after a reload)
+            yield e
+            for f in dataclasses.fields(e):
+                if f.name != "parent":
+                    yield from every_node(getattr(e, f.name), seen)
+
     def expr_names(e, where):
         if isinstance(e, E.Expr):
             acc_list.append((where, "<str>", str(e)))  # the reloaded expression must also print the same
@@ -111,6 +125,13 @@ def _names(obj, acc_list, griffe, prefix=""):
                     except Exception as ex:  # noqa: BLE001
                         cp = "RAISE:" + type(ex).__name__
                     acc_list.append((where, x.name, cp))
+            # every node's own canonical path (keywords resolve through the called function, attributes through their chain, ...)
+            for x in every_node(e, set()):
+                try:
+                    cp = x.canonical_path
+                except Exception as ex:  # noqa: BLE001
+                    cp = "RAISE:" + type(ex).__name__
+                acc_list.append((where, "<" + type(x).__name__ + ">", cp))
 
     for name, m in obj.members.items():
         where = f"{prefix}{name}"
@@ -247,7 +268,13 @@ def run_case(griffe, acc, case):
                 _names(reloaded, n2, griffe)
                 if n1 != n2:
                     bad = next(((x, y) for x, y in zip(n1, n2) if x != y), (n1[len(n2):][:1], n2[len(n1):][:1]))
-                    shape = "init-parameter" if bad and bad[0] and isinstance(bad[0], tuple) and "(" in str(bad[0][2]) and str(bad[0][2]).endswith(")") else "name"
+                    first = bad[0] if bad and bad[0] and isinstance(bad[0], tuple) else None
+                    if first is not None and not str(first[1]).startswith("<") and str(first[2]).endswith(f"({first[1]})"):
+                        shape = "init-parameter"  # a name that is a parameter of the enclosing __init__: Class(param)
+                    elif first is not None and str(first[1]).startswith("<") and first[1] != "<str>":
+                        shape = "node:" + str(first[1]).strip("<>")
+                    else:
+                        shape = "name"
                     acc.violation(f"names/{agent}/{str(bad[0][0]).split('(')[-1].rstrip(')') if bad and bad[0] else 'count'}/{shape}", f"ExprName resolution differs after reload: {bad}", cd, None, size=size)
             except Exception as e:  # noqa: BLE001
                 acc.violation(f"names/raise/{type(e).__name__}", repr(e), cd, None, size=size)
